@@ -411,6 +411,8 @@ pub fn run_c04(ctx: &Ctx) -> Outcome {
     ptxt.need_mutator = true;
     ptxt.protocols = vec![0, 0, 1, 2, 4, 5];
     drive(ctx, &mut out, 2, &ptxt, ctx.n(20_000, 1_000_000), Want::default(), judge_c04, None);
+    // value-dependent corners of single emitters: boundary words as fuzzer bytes behind scripted opcodes
+    crate::props::tree::run_dict(ctx, &mut out, crate::props::tree::TreeOracle::C04);
     history_shards(ctx, &mut out, ctx.n(2_000, 40_000));
     out
 }
@@ -468,6 +470,35 @@ pub fn run_c05(ctx: &Ctx) -> Outcome {
     let mut tiny = Profile::safe();
     tiny.size = SizeMode::Tiny;
     drive(ctx, &mut out, 2, &tiny, ctx.n(20_000, 500_000), Want::default(), judge_c05, None);
+    crate::props::tree::run_dict(ctx, &mut out, crate::props::tree::TreeOracle::C05);
+    // two (thorough: twelve) very long programs: a simulated stack of tens of thousands of slots
+    if !out.failed() {
+        let mut items: Vec<GenCase> = Vec::new();
+        let protos: Vec<u8> = if ctx.thorough() { (0u8..=5).collect() } else { vec![0, 1] };
+        for p in protos {
+            for (k, n) in (if ctx.thorough() { vec![64_000usize, 100_000] } else { vec![64_000usize] }).into_iter().enumerate() {
+                let mut c = GenCase::default_for(p, ctx.seed ^ 0xb16 ^ ((p as u64) << 8) ^ k as u64);
+                c.min_opcodes = n;
+                c.max_opcodes = n;
+                items.push(c);
+            }
+        }
+        let (st, found) = crate::runner::run_enum(items, |c, st| {
+            st.label("program of 64 000+ opcodes");
+            let a = analyze(c, Want::default());
+            match judge_c05(c, &a, st) {
+                Ok(_) => {
+                    st.nontrivial(crate::util::digest_str(&c.brief()));
+                    Ok(())
+                }
+                Err(f) => ctx.fail(st, f),
+            }
+        });
+        out.stats.merge(st);
+        if let Some((c, f)) = found {
+            out.violation = Some(Violation { fail: f, case: serde_json::to_value(&c).unwrap() });
+        }
+    }
     history_shards(ctx, &mut out, ctx.n(3_000, 60_000));
     out
 }
